@@ -233,6 +233,7 @@ func (s *Sched) Run() *Failure {
 	defer timer.Stop()
 	enabled := make([]int, 0, len(s.threads))
 	curID := -1
+	var blockedSince time.Time
 	for {
 		enabled = enabled[:0]
 		alive := 0
@@ -257,8 +258,18 @@ func (s *Sched) Run() *Failure {
 			return nil
 		}
 		if len(enabled) == 0 {
+			// every live thread waits for a mutex. A free-running goroutine (not under this
+			// scheduler) may be the holder: give it time before calling it a deadlock.
+			if s.UseGid && blockedSince.IsZero() {
+				blockedSince = time.Now()
+			}
+			if s.UseGid && time.Since(blockedSince) < s.StallAfter {
+				time.Sleep(20 * time.Microsecond)
+				continue
+			}
 			return &Failure{Kind: "deadlock", Value: fmt.Sprintf("%d threads alive, none enabled", alive), Tid: -1}
 		}
+		blockedSince = time.Time{}
 		if s.Steps >= s.MaxSteps {
 			return &Failure{Kind: "stall", Value: fmt.Sprintf("more than %d scheduling steps", s.MaxSteps), Tid: -1}
 		}
